@@ -235,7 +235,12 @@ func (a *act) inline(fn *ssa.Function, bindings []Val, args []Val, rtyp types.Ty
 		e.cur.log.assert(not(reach))
 		return e.freshVal("noret", rtyp, st), nil
 	}
-	_ = exitReach
+	// partial correctness: what follows the call is about executions in which the inlined callee returned normally.
+	// Without this the merged exit state is unconstrained on paths that end inside the callee (a loop cut at its back
+	// edge, a panic), while the caller's own reachability still holds.
+	if exitReach.S != "" && exitReach.S != reach.S {
+		e.cur.log.assert(implies(reach, exitReach))
+	}
 	return e.tupleOf(rtyp, results), exitSt
 }
 
@@ -365,9 +370,19 @@ func (a *act) applyContract(fs *FuncSpec, fn *ssa.Function, args []Val, cs callS
 	post := st
 	if !fs.Pure {
 		post.known = nil
+		// the targets of a modifies clause are locations of the state BEFORE the call (`modifies p.buf, elems(p.buf)`
+		// names the old backing array): evaluate them there, havoc in the post state
+		henv := e.newEnv(a, pre)
+		henv.vars = env.vars
+		henv.fnScope = fn
 		for _, c := range fs.Modifies {
-			if err := env.havocTarget(c.E, post); err != nil {
+			if err := henv.havocTarget(c.E, post); err != nil {
 				a.specError(c, err)
+			}
+		}
+		for _, gs := range fs.GhostSets {
+			if err := henv.havocTarget(gs.Target.E, post); err != nil {
+				a.specError(gs.Target, err)
 			}
 		}
 		na := e.cur.log.fresh("alloc", SInt)
@@ -406,6 +421,18 @@ func (a *act) applyContract(fs *FuncSpec, fn *ssa.Function, args []Val, cs callS
 		if n := res.At(i).Name(); n != "" && n != "_" {
 			env2.vars[n] = results[i]
 		}
+	}
+	for _, gs := range fs.GhostSets {
+		name, srt, key, err := env2.ghostSetParts(gs)
+		if err != nil {
+			a.specError(gs.Target, err)
+			continue
+		}
+		v, err := env2.eval(gs.Val.E)
+		if err != nil || len(v.T) != 1 {
+			continue
+		}
+		e.cur.log.assert(implies(reach, eq(sel(e.heapGet(post, name, srt), key), v.T[0])))
 	}
 	for _, c := range fs.Ensures {
 		t, err := env2.evalBool(c.E)
@@ -529,8 +556,10 @@ func (a *act) applyExtern(xs *ExternSpec, sig *types.Signature, args []Val, cs c
 	if xs.Pure {
 		result = a.pureUF(xs.Name, args, rtyp, st)
 	} else {
+		henv := e.newEnv(a, pre)
+		henv.vars = env.vars
 		for _, c := range xs.Modifies {
-			if err := env.havocTarget(c.E, post); err != nil {
+			if err := henv.havocTarget(c.E, post); err != nil {
 				a.specError(c, err)
 			}
 		}
